@@ -24,23 +24,24 @@ NEG = [  # negative controls: the model expresses each repaired defect and the p
 _RE_DRIFT = re.compile(r'"IMPL-DRIFT", (\d+), "([^"]+)"')
 
 
-# The tlc wrapper sets no heap limit, so each JVM may grow to a quarter of the RAM; cap it
-# (the JVM reads JAVA_TOOL_OPTIONS itself).  Model checking gets more than a trace-validation part.
-HEAP_MODEL = "-Xmx4g"
-HEAP_TRACE = "-Xmx2g"
+# Memory courtesy (BUILDER_GUIDE "machine load"): one quick run stays below ~6 GB.  The JVM reads
+# JAVA_TOOL_OPTIONS itself; verifylib only sets defaults, these take precedence.
+HEAP_MODEL = "-Xmx4g -XX:ParallelGCThreads=4"
+HEAP_TRACE = {"quick": "-Xmx1g -XX:ParallelGCThreads=2", "thorough": "-Xmx2g -XX:ParallelGCThreads=2"}
+TIER = "quick"
 
 
-def validate(sc, files, cfg="BatchScheduleTrace.cfg", parallel=8, timeout=1800):
+def validate(sc, files, cfg="BatchScheduleTrace.cfg", parallel=6, timeout=1800, nparts=12):
     """V.validate_traces plus collection of the IMPL-DRIFT reports (Strict = "report": the code-shaped
     model disagrees with an observation that the verdict level accepts; never a verdict)."""
     parts = []
     for f in files:
-        parts += V.split_trace(f, parallel, sc)
+        parts += V.split_trace(f, nparts, sc)
     rej, kf, drift, states = [], set(), [], 0
 
     def one(fp):
         return fp, V.run_tlc(sc, "BatchSchedule", "BatchScheduleTraceMC.tla", cfg, workers=1, timeout=timeout,
-                             env_extra={"TRACE_FILE": fp, "JAVA_TOOL_OPTIONS": HEAP_TRACE})
+                             env_extra={"TRACE_FILE": fp, "JAVA_TOOL_OPTIONS": HEAP_TRACE[TIER]})
 
     t = time.time()
     with concurrent.futures.ThreadPoolExecutor(max_workers=parallel) as ex:
@@ -131,7 +132,7 @@ def binding_self_test(sc, trace_file):
     m["qs"][1]["gs"] += 1
     bad[-1] = json.dumps(m, separators=(",", ":"))
     put("bad_task_start", bad)
-    v = validate(sc, list(cases.values()), parallel=len(cases))
+    v = validate(sc, list(cases.values()), parallel=len(cases), nparts=1)
     bad_fps = {fp for fp, _, _ in v["rejections"]}
     res = {name: ("rejected" if fp in bad_fps else "accepted") for name, fp in cases.items()}
     for name, r in res.items():
@@ -142,6 +143,8 @@ def binding_self_test(sc, trace_file):
 
 
 def run(sc, tier, seed):
+    global TIER
+    TIER = tier
     R = V.Result("C16", tier, seed)
     os.environ["JAVA_TOOL_OPTIONS"] = HEAP_MODEL
     V.build_harness("c16")
@@ -172,7 +175,7 @@ def run(sc, tier, seed):
 def replay(sc, path):
     path = os.path.abspath(path)
     seg = os.path.join(path, "segment.ndjson")
-    val = validate(sc, [seg], parallel=1)
+    val = validate(sc, [seg], parallel=1, nparts=1)
     if val["accepted"]:
         print("replay: segment is accepted by the current specification")
         return 0
